@@ -6,6 +6,7 @@ package gabi
 
 import (
 	"slices"
+	"sync"
 
 	"github.com/go-errors/errors"
 	"github.com/privacybydesign/gabi/big"
@@ -197,11 +198,26 @@ func (ic *Credential) nonrevConsumeBuilder() (*NonRevocationProofBuilder, error)
 	// lest we totally break security: reusing randomizers in a second session makes it possible
 	// for the verifier to compute our revocation witness e from the proofs
 	select {
-	case b := <-ic.nonrevCache:
+	case b := <-ic.nonrevCacheChan(false):
 		return b, b.UpdateCommit(ic.NonRevocationWitness)
 	default:
 		return ic.NonrevBuildProofBuilder()
 	}
+}
+
+// nonrevCacheMutex guards the lazy creation of Credential.nonrevCache, which may be requested
+// by NonrevPrepareCache while other goroutines are creating disclosure proofs.
+var nonrevCacheMutex sync.Mutex
+
+// nonrevCacheChan returns the credential's cache channel, creating it first if asked to.
+// (Receiving from the nil channel of a credential whose cache was never prepared never succeeds.)
+func (ic *Credential) nonrevCacheChan(create bool) chan *NonRevocationProofBuilder {
+	nonrevCacheMutex.Lock()
+	defer nonrevCacheMutex.Unlock()
+	if ic.nonrevCache == nil && create {
+		ic.nonrevCache = make(chan *NonRevocationProofBuilder, 1)
+	}
+	return ic.nonrevCache
 }
 
 // NonrevPrepareCache ensures that the Credential's non-revocation proof builder cache is
@@ -211,13 +227,11 @@ func (ic *Credential) NonrevPrepareCache() error {
 	if ic.NonRevocationWitness == nil {
 		return nil
 	}
-	if ic.nonrevCache == nil {
-		ic.nonrevCache = make(chan *NonRevocationProofBuilder, 1)
-	}
+	cache := ic.nonrevCacheChan(true)
 	var b *NonRevocationProofBuilder
 	var err error
 	select {
-	case b = <-ic.nonrevCache:
+	case b = <-cache:
 		Logger.Trace("updating existing nonrevocation commitment")
 		err = b.UpdateCommit(ic.NonRevocationWitness)
 	default:
@@ -231,7 +245,7 @@ func (ic *Credential) NonrevPrepareCache() error {
 	// put it back in the channel, waiting to be consumed by nonrevConsumeBuilder()
 	// if the channel has already been populated by another goroutine in the meantime we just discard
 	select {
-	case ic.nonrevCache <- b:
+	case cache <- b:
 	default:
 	}
 
